@@ -107,6 +107,82 @@ def gen_h2_spec(r: random.Random, flavor: str) -> dict:
     return spec
 
 
+async def run_chain(flavor, variant, cnt, v, sigs):
+    """A dependency that runs through the client: an upload (B) has used up its 16-byte stream window and gets more
+    credit only once a later request (C2) has arrived, which its caller sends only after an earlier response (C1) has
+    been delivered to it. C1's response arrives in the same read as A's, while A holds the read lock, B waits for it
+    next (for a WINDOW_UPDATE) and C1's own caller waits behind B. Whoever reads next must not keep a caller whose
+    response is already there from picking it up."""
+    import anyio
+    from .. import simnet, endpoints
+    from ..endpoints import Resp
+    from ..world import mk_pool, API, guarded
+    net = simnet.Net()
+    net.log_events = False
+    d_a, d_c1 = variant["d_a"], variant["d_c1"]
+
+    def responder(req, origin):
+        tok = req.token or b"-"
+        delay = {b"A": d_a, b"C1": d_c1}.get(tok, 0.0)
+        return Resp(200, b"OK", [(b"X-Echo", tok)], b"r" * 200, delay=delay)
+    origin = endpoints.Origin(net, "o.test", 443, tls=True, alpn=["h2"], responder=responder,
+                              h2_script={"settings": {3: 100, 4: 16}, "data_chunk": 4000, "win": "dep:5:2"})
+    pool = mk_pool(flavor, net, http2=True, max_connections=1)
+    api = API(flavor, pool, net)
+    res = {}
+
+    async def call(tok, method="GET", content=None):
+        r_ = await api.request(method, f"https://o.test/{tok}", headers=[("X-Token", tok)], content=content)
+        res[tok] = (r_.status, len(r_.content))
+
+    async def scen():
+        simnet.CALL.set("W")
+        await call("W")
+
+        async def a():
+            simnet.CALL.set("A")
+            await call("A")
+
+        async def b():
+            simnet.CALL.set("B")
+            await anyio.sleep(0.1)
+            await call("B", "POST", b"u" * 64)
+
+        async def c():
+            simnet.CALL.set("C")
+            await anyio.sleep(0.2)
+            await call("C1")
+            await call("C2")
+        async with anyio.create_task_group() as tg:
+            tg.start_soon(a)
+            tg.start_soon(b)
+            tg.start_soon(c)
+        return True
+    out = await guarded(flavor, scen)
+    cnt["workloads"] += 1
+    cnt["oracle_progress"] += 1
+    cnt["chain_runs"] = cnt.get("chain_runs", 0) + 1
+    srv = [c_.h2 for c_ in origin.conns if c_.h2 is not None]
+    for s_ in srv:
+        cnt["streams"] += len(s_.reqs)
+        cnt["oracle_stream_limit"] += s_.stream_limit_checks
+        cnt["frames_seen"] += s_.ledger.frames
+        cnt["max_concurrent_seen"] = max(cnt["max_concurrent_seen"], s_.ledger.max_open_seen)
+        for viol_ in s_.ledger.violations:
+            v(f"ledger:{viol_['kind']}:chain", f"{viol_}", {"variant": variant})
+    ctx = {"flavor": flavor, "variant": variant, "completed": sorted(res)}
+    sigs.add(f"chain|{flavor}|{d_a}|{d_c1}")
+    if out.kind == "hang":
+        v("wedged:chain", f"callers blocked for ever; completed {sorted(res)} - a caller whose response had arrived was kept "
+          f"waiting behind a reader that waits for bytes the server has no reason to send", ctx)
+    elif out.kind != "ok" or len(res) != 5 or any(x != (200, 200) for x in res.values()):
+        v("chain:request-failed", f"{out!r} {res}", ctx)
+    else:
+        cnt["requests_ok"] += 5
+        cnt["oracle_echo"] += 5
+    await guarded(flavor, api.close_pool)
+
+
 def run_case(case):
     viol = []
     cnt = {k: 0 for k in ["workloads", "streams", "oracle_stream_limit", "oracle_echo", "oracle_progress",
@@ -120,6 +196,8 @@ def run_case(case):
             viol.append({"key": key, "what": what, "detail": detail})
 
     async def main():
+        for variant in case.get("chain", []):
+            await run_chain(case["flavor"], variant, cnt, v, sigs)
         for spec in case["specs"]:
             wl = Workload(spec)
             out = await wl.run()
@@ -195,4 +273,7 @@ def plan(tier, seed):
     for i in range(n_cases):
         flavor = ["asyncio", "trio"][i % 2]
         cases.append({"flavor": flavor, "specs": [gen_h2_spec(r, flavor) for _ in range(per)], "seed": r.randrange(1 << 30)})
+    chain = [{"d_a": a_, "d_c1": c_} for a_, c_ in ((1.0, 0.8), (1.0, 0.5), (1.0, 1.0), (0.5, 0.8), (2.0, 1.8), (1.0, 0.79))]
+    for flavor in ("asyncio", "trio"):
+        cases.append({"flavor": flavor, "specs": [], "chain": chain, "seed": 7})
     return cases
